@@ -222,6 +222,8 @@ struct OpInfo {
     fault: bool,
     /// extra signature tags (state predicates)
     tags: String,
+    /// further properties every verdict on this operation concerns (deletions: C11)
+    extra: &'static [&'static str],
 }
 
 pub struct Exec {
@@ -309,6 +311,21 @@ impl Exec {
 
     /// Evaluates the oracles after an operation returned (Ok or Err).
     fn check_after(&mut self, pp: &ParsedPacket, info: &OpInfo, res: &Res) -> Result<(), Violation> {
+        let r = self.check_after_inner(pp, info, res);
+        r
+    }
+
+    /// `soft`, with the operation's extra properties added to the verdict first.
+    fn soft_x(&mut self, mut v: Violation, info: &OpInfo) -> Result<(), Violation> {
+        for p in info.extra {
+            if !v.has(p) {
+                v.props.push(p);
+            }
+        }
+        self.soft(v)
+    }
+
+    fn check_after_inner(&mut self, pp: &ParsedPacket, info: &OpInfo, res: &Res) -> Result<(), Violation> {
         let ok = matches!(res, Res::Ok);
         let after_props: &[&'static str] = if ok {
             if info.mutator {
@@ -378,7 +395,7 @@ impl Exec {
                                 info.name, d
                             ),
                         );
-                        self.soft(v)?;
+                        self.soft_x(v, info)?;
                     }
                 }
                 if dec.msg != self.model || info.mutator {
@@ -463,7 +480,7 @@ impl Exec {
                 format!("{}{}", key, info.tags),
                 format!("after a {} {}: {}", what, info.name, d),
             );
-            self.soft(v)?;
+            self.soft_x(v, info)?;
         }
         if !pp.maybe_compressed && dec.layout.has_pointer {
             let v = self.viol(
@@ -476,7 +493,7 @@ impl Exec {
                     what, info.name
                 ),
             );
-            self.soft(v)?;
+            self.soft_x(v, info)?;
         }
         // event log
         let mut h = Fnv::new();
@@ -529,7 +546,8 @@ impl Exec {
             is_insert: false,
             fault: false,
             tags: String::new(),
-        };
+            extra: &[],
+};
         match op {
             Op::SetTid(v) => {
                 let r = guarded(|| pp.set_tid(*v));
@@ -836,6 +854,7 @@ impl Exec {
                     is_insert: true,
                     fault: false,
                     tags,
+                    extra: &[],
                 };
                 if matches!(res, Res::Ok) {
                     // new uid for the appended record
@@ -1222,7 +1241,8 @@ impl Exec {
                                 is_insert: false,
                                 fault: false,
                                 tags: tags.clone(),
-                            };
+                                extra: &[],
+};
                             self.check_after(c.pp(), &info, &res)?;
                             if let (Res::Ok, Some(k)) = (&res, idx) {
                                 cur_mutated = true;
@@ -1263,7 +1283,8 @@ impl Exec {
                                 is_insert: false,
                                 fault: false,
                                 tags: tags.clone(),
-                            };
+                                extra: &[],
+};
                             self.check_after(it.parsed_packet(), &info, &Res::Ok)?;
                             cur_mutated = true;
                             let c = cur.as_ref().unwrap();
@@ -1334,6 +1355,7 @@ impl Exec {
                                 is_insert: false,
                                 fault: !legal,
                                 tags: tags.clone(),
+                                extra: &[],
                             };
                             self.check_after(it.parsed_packet(), &info, &res)?;
                             if matches!(res, Res::Ok) {
@@ -1414,6 +1436,7 @@ impl Exec {
                                 is_insert: false,
                                 fault: valid.is_none() || tomb,
                                 tags: tags.clone(),
+                                extra: &[],
                             };
                             self.check_after(c.pp(), &info, &res)?;
                             if let (Res::Ok, Some(k)) = (&res, idx) {
@@ -1496,6 +1519,7 @@ impl Exec {
                                 is_insert: false,
                                 fault: tomb,
                                 tags: tags.clone(),
+                                extra: &["C11"],
                             };
                             if ok {
                                 if let Some(k) = idx {
